@@ -32,6 +32,7 @@ fn main() {
         "c01" => Box::new(fvh::c01::C01 {
             max_size: args.p_u64("max_size", 3000) as usize,
         }),
+        "c03" => Box::new(fvh::c03::C03 {}),
         "c04" => Box::new(fvh::c04::C04 {
             max_len: args.p_u64("max_len", 2048) as usize,
         }),
